@@ -286,6 +286,25 @@ pub fn run(ctx: &mut Ctx) {
             b += 4;
         }
     }
+    for (i, prog) in inline_wrapper_gallery().into_iter().enumerate() {
+        if !ctx.mine(i as u64) {
+            continue;
+        }
+        let r = sim::simulate(&prog).registry;
+        for (k, alloc) in [None, Some("::alloc".to_string())].into_iter().enumerate() {
+            let mut d = SDesc::default();
+            d.alloc = alloc;
+            d.via_builders = k == 1;
+            ctx.begin_case(&format!("inline wrapper gallery {i} settings {k}"));
+            let regj = reg::to_json(&r);
+            let dj = serde_json::to_value(&d).unwrap();
+            let src = prog.render_source("TypeInfo");
+            let replay = || json!({"kind": "registry", "registry": regj, "sdesc": dj, "source": src, "alias_hidden_box": false});
+            let nt = judge(ctx, &r, &d, false, &replay);
+            ctx.case(hash_of(&(reg::fingerprint(&r), k)), nt);
+            ctx.count("inline_wrapper_gallery_cases", 1);
+        }
+    }
     let n = ctx.tier.pick(3000u64, 150_000u64);
     for case in 0..n {
         if !ctx.mine(case) {
